@@ -2,8 +2,10 @@ package props
 
 import (
 	"context"
+	"encoding/json"
 	"errors"
 	"fmt"
+	"hash/fnv"
 	"reflect"
 	"time"
 
@@ -43,6 +45,7 @@ type c15Case struct {
 	AckUnk   bool
 	AckErr   bool
 	Registry []c15Handler
+	Hook     bool // the processor is configured with an OnHandle hook that calls the handler with the message's context
 }
 
 func c15Marshaler(cs c15Case) cqrs.CommandEventMarshaler {
@@ -133,7 +136,7 @@ func runC15(c *Ctx) error {
 					}
 					i++
 					cases = append(cases, c15Case{Kind: kind, Codec: []string{"json", "proto"}[i%2], NameGen: []string{"default", "struct", "named"}[i%3],
-						AckUnk: au, AckErr: ae, Registry: reg})
+						AckUnk: au, AckErr: ae, Registry: reg, Hook: i%4 < 2})
 				}
 			}
 		}
@@ -151,6 +154,23 @@ func runC15(c *Ctx) error {
 	Parallel(len(cases), func(i int) { c15Run(runs[i], cases[i]) })
 	c.AddStat("cases", len(cases))
 	return nil
+}
+
+// c15If returns f when on, else the zero value (no hook configured).
+func c15If[F any](on bool, f F) F {
+	if on {
+		return f
+	}
+	var zero F
+	return zero
+}
+
+// c15Shard derives a topic suffix from the VALUE of a command / event (per-tenant topics).
+func c15Shard(v any) string {
+	b, _ := json.Marshal(v)
+	h := fnv.New32a()
+	_, _ = h.Write(b)
+	return fmt.Sprintf("shard%d", h.Sum32()%5)
 }
 
 type c15Generic struct {
@@ -215,6 +235,9 @@ func c15Run(r *tr.Run, cs c15Case) {
 				return mkSub(), nil
 			},
 			Marshaler: m, AckCommandHandlingErrors: cs.AckErr,
+			OnHandle: c15If(cs.Hook, func(p cqrs.CommandProcessorOnHandleParams) error {
+				return p.Handler.Handle(p.Message.Context(), p.Command)
+			}),
 		})
 		if err == nil {
 			for _, h := range handlers {
@@ -229,6 +252,7 @@ func c15Run(r *tr.Run, cs c15Case) {
 			GenerateSubscribeTopic: func(cqrs.EventProcessorGenerateSubscribeTopicParams) (string, error) { return "t", nil },
 			SubscriberConstructor:  func(cqrs.EventProcessorSubscriberConstructorParams) (message.Subscriber, error) { return mkSub(), nil },
 			Marshaler:              m, AckOnUnknownEvent: cs.AckUnk,
+			OnHandle: c15If(cs.Hook, func(p cqrs.EventProcessorOnHandleParams) error { return p.Handler.Handle(p.Message.Context(), p.Event) }),
 		})
 		if err == nil {
 			for _, h := range handlers {
@@ -245,6 +269,9 @@ func c15Run(r *tr.Run, cs c15Case) {
 				return mkSub(), nil
 			},
 			Marshaler: m, AckOnUnknownEvent: cs.AckUnk,
+			OnHandle: c15If(cs.Hook, func(p cqrs.EventGroupProcessorOnHandleParams) error {
+				return p.Handler.Handle(p.Message.Context(), p.Event)
+			}),
 		})
 		if err == nil {
 			var gh []cqrs.GroupEventHandler
@@ -322,21 +349,21 @@ func c15Run(r *tr.Run, cs c15Case) {
 	pub := scripted.NewPub("capture")
 	topicOf := func(name string) string { return "topic-" + name }
 	cb, e1 := cqrs.NewCommandBusWithConfig(pub, cqrs.CommandBusConfig{GeneratePublishTopic: func(p cqrs.CommandBusGeneratePublishTopicParams) (string, error) {
-		return topicOf(p.CommandName), nil
+		return topicOf(p.CommandName) + "/" + c15Shard(p.Command), nil
 	}, Marshaler: m})
 	eb, e2 := cqrs.NewEventBusWithConfig(pub, cqrs.EventBusConfig{GeneratePublishTopic: func(p cqrs.GenerateEventPublishTopicParams) (string, error) {
-		return topicOf(p.EventName), nil
+		return topicOf(p.EventName) + "/" + c15Shard(p.Event), nil
 	}, Marshaler: m})
 	if e1 != nil || e2 != nil {
 		r.Emit("error", "what", "bus construction")
 		return
 	}
 	for t := 1; t <= 3; t++ {
-		for which := 0; which < 2; which++ {
-			v := c15Value(cs, t, 10+t)
+		for which := 0; which < 6; which++ {
+			v := c15Value(cs, t, 10+t+7*(which/2)) // several values of each type: the topic is generated per message
 			before := len(pub.Calls())
 			var e error
-			if which == 0 {
+			if which%2 == 0 {
 				e = cb.Send(context.Background(), v)
 			} else {
 				e = eb.Publish(context.Background(), v)
@@ -353,7 +380,7 @@ func c15Run(r *tr.Run, cs c15Case) {
 				out := c15New(cs, t)()
 				round = m.Unmarshal(calls[0].Msgs[0], out) == nil && c15Equal(out, v)
 			}
-			r.Emit("bus", "calls", len(calls), "topic", topic, "name", name, "exptopic", topicOf(m.Name(v)), "expname", m.Name(v), "roundtrip", round)
+			r.Emit("bus", "calls", len(calls), "topic", topic, "name", name, "exptopic", topicOf(m.Name(v))+"/"+c15Shard(v), "expname", m.Name(v), "roundtrip", round)
 		}
 	}
 	r.NonTrivial = len(cs.Registry) >= 2
